@@ -880,6 +880,9 @@ impl Inner {
 
         trace!("accept: verified authorization");
 
+        #[cfg(iroh_verif)]
+        iroh_dns::verif::pause_async("relay.accept.admitted").await;
+
         let io = RelayedStream {
             inner: io,
             key_cache: self.key_cache.clone(),
